@@ -62,7 +62,7 @@ use nix::libc::{c_void, uintptr_t};
 use nix::sys;
 use nix::sys::signal;
 use nix::sys::signal::{SIGKILL, Signal};
-use nix::sys::wait::waitpid;
+use nix::sys::wait::{WaitStatus, waitpid};
 use nix::unistd::Pid;
 use object::Object;
 use os_pipe::PipeWriter;
@@ -1260,9 +1260,19 @@ impl Drop for Debugger {
 
         match self.debugee.execution_status() {
             ExecutionStatus::Unload => {
-                signal::kill(self.debugee.tracee_ctl().proc_pid(), Signal::SIGKILL)
-                    .expect("kill debugee");
-                waitpid(self.debugee.tracee_ctl().proc_pid(), None).expect("waiting child");
+                let proc_pid = self.debugee.tracee_ctl().proc_pid();
+                signal::kill(proc_pid, Signal::SIGKILL).expect("kill debugee");
+                // the child is traced with PTRACE_O_TRACEEXIT: its death is announced by an
+                // exit-event stop first, and it stays in that stop (never reaped, and keeping
+                // every later `waitpid(-1)` of this process from seeing ECHILD) unless it is
+                // resumed and waited for until it is really gone
+                loop {
+                    match waitpid(proc_pid, None) {
+                        Ok(WaitStatus::Exited(_, _)) | Ok(WaitStatus::Signaled(_, _, _)) => break,
+                        Ok(_) => _ = sys::ptrace::cont(proc_pid, None),
+                        Err(_) => break,
+                    }
+                }
             }
             ExecutionStatus::InProgress => {
                 // ignore all possible errors on breakpoints disabling
